@@ -247,6 +247,7 @@ type node struct {
 	holding  bool
 
 	savedCmd map[[3]uint64]bool // (slot, index, command id) of every command entry this node saved
+	lastSave map[uint64]uint64  // slot -> index of the last entry of the latest Save that carried entries
 	sms      map[uint64]*smState // "durable" state machine state per slot
 	booting atomic.Bool         // OpenSlot in progress (Restore during newSlot)
 }
@@ -375,6 +376,9 @@ func (s *recStorage) Save(ctx context.Context, st multiraft.PersistentState) err
 				s.n.savedCmd[[3]uint64{s.slot, uint64(e[0]), uint64(e[2])}] = true
 			}
 		}
+		if len(ents) > 0 {
+			s.n.lastSave[s.slot] = uint64(ents[len(ents)-1][0])
+		}
 		s.n.c.tr.emit(s.slot, kit.Ev("Save", "n", s.n.id, "ents", ents, "sn", sn, "so", so, "sc", sc), nil)
 		s.n.c.count("Save")
 		if sn > 0 {
@@ -490,6 +494,28 @@ func (m durableSM) DurableAppliedIndex(ctx context.Context) (uint64, error) {
 	return m.st.applied, nil
 }
 
+// singleSM is the same recording state machine WITHOUT the BatchStateMachine capability: multiraft
+// hands it every command through StateMachine.Apply, one by one (the fallback path of
+// applyCommittedEntries for every span, not only for spans of one entry).
+type singleSM struct{ m *recSM }
+
+func (s singleSM) Apply(ctx context.Context, cmd multiraft.Command) ([]byte, error) {
+	return s.m.Apply(ctx, cmd)
+}
+func (s singleSM) Restore(ctx context.Context, snap multiraft.Snapshot) error {
+	return s.m.Restore(ctx, snap)
+}
+func (s singleSM) Snapshot(ctx context.Context) (multiraft.Snapshot, error) {
+	return s.m.Snapshot(ctx)
+}
+
+// durableSingleSM: no ApplyBatch, but the durable applied index.
+type durableSingleSM struct{ singleSM }
+
+func (s durableSingleSM) DurableAppliedIndex(ctx context.Context) (uint64, error) {
+	return durableSM{s.m}.DurableAppliedIndex(ctx)
+}
+
 // ---- network ------------------------------------------------------------------------------------------------
 
 type network struct {
@@ -602,6 +628,13 @@ func (nw *network) setBlocked(a, b uint64, v bool) {
 	nw.mu.Unlock()
 }
 
+// setBlockedOneWay drops messages from -> to only (the other direction keeps working).
+func (nw *network) setBlockedOneWay(from, to uint64, v bool) {
+	nw.mu.Lock()
+	nw.blocked[[2]uint64{from, to}] = v
+	nw.mu.Unlock()
+}
+
 func (nw *network) healAll() {
 	nw.mu.Lock()
 	nw.blocked = map[[2]uint64]bool{}
@@ -619,6 +652,7 @@ func (nw *network) close() {
 
 type clusterCfg struct {
 	durable      bool
+	single       bool // the state machine has no ApplyBatch (plain multiraft.StateMachine)
 	slots        []uint64
 	checkQuorum  bool
 	preVote      bool
@@ -685,7 +719,7 @@ func newCluster(dir string, cfg clusterCfg, tr *tracer, rep *kit.Report, rng *ra
 		c.cfg.lagMax = time.Millisecond
 	}
 	for _, id := range c.ids {
-		n := &node{c: c, id: id, dir: filepath.Join(dir, fmt.Sprintf("node%d", id)), sms: map[uint64]*smState{}, savedCmd: map[[3]uint64]bool{}}
+		n := &node{c: c, id: id, dir: filepath.Join(dir, fmt.Sprintf("node%d", id)), sms: map[uint64]*smState{}, savedCmd: map[[3]uint64]bool{}, lastSave: map[uint64]uint64{}}
 		for _, s := range cfg.slots {
 			n.sms[s] = &smState{}
 		}
@@ -703,8 +737,13 @@ func newCluster(dir string, cfg clusterCfg, tr *tracer, rep *kit.Report, rng *ra
 func (c *cluster) slotOptions(n *node, slot uint64) multiraft.SlotOptions {
 	base := &recSM{n: n, slot: slot, st: n.sms[slot]}
 	var sm multiraft.StateMachine = base
-	if c.cfg.durable {
+	switch {
+	case c.cfg.durable && c.cfg.single:
+		sm = durableSingleSM{singleSM{base}}
+	case c.cfg.durable:
 		sm = durableSM{base}
+	case c.cfg.single:
+		sm = singleSM{base}
 	}
 	return multiraft.SlotOptions{
 		ID:           multiraft.SlotID(slot),
@@ -910,6 +949,13 @@ func (n *node) everSaved(slot, index, v uint64) bool {
 	n.mu.Lock()
 	defer n.mu.Unlock()
 	return n.savedCmd[[3]uint64{slot, index, v}]
+}
+
+// lastSavedIndex: index of the last entry of the node's latest Save with entries (0 = none yet).
+func (n *node) lastSavedIndex(slot uint64) uint64 {
+	n.mu.Lock()
+	defer n.mu.Unlock()
+	return n.lastSave[slot]
 }
 
 func (n *node) smCopy(slot uint64) []cmdRec {
